@@ -578,3 +578,10 @@ func Tick() uint64 {
 //
 //go:norace
 func ResetTick() { tick = 0 }
+
+// IsAbort reports whether a recovered panic value is the scheduler's own
+// unwinding signal; code that recovers panics inside a task must re-panic it.
+func IsAbort(r interface{}) bool {
+	_, ok := r.(abortSentinel)
+	return ok
+}
